@@ -3,7 +3,7 @@
 //! recording ValueWriter.
 //!
 //! Suites: "-p" pairs `(0 from to)`, "-c" census `(1)`, "-v" value trees `(2 tree)` and attribute entries
-//! `(3 (tree..))`.
+//! `(3 (tree..))`, "-m" means fed by a sequence of `record_value` calls `(4 tree)`.
 use crate::common::{Ctx, Out, Rng};
 use crate::sx::{self, Sx};
 use metrique_writer::value::{Distribution, Mean};
@@ -45,6 +45,8 @@ pub enum Call {
     Nothing,
     Str(String),
     Err(Vec<String>),
+    /// an error exactly as some value handed it to its writer (replayed into Mean::record_value)
+    ErrRaw(ValidationError),
     Metric { obs: Vec<Observation>, unit: Unit, dims: Vec<(String, String)>, flag: Option<u32> },
 }
 
@@ -59,6 +61,7 @@ fn perform(c: &Call, w: impl ValueWriter) {
             }
             w.error(e)
         }
+        Call::ErrRaw(e) => w.error(e.clone()),
         Call::Metric { obs, unit, dims, flag } => {
             let f = flag.map(MyFlag);
             let flags = match &f {
@@ -92,6 +95,10 @@ impl<U> metrique::CloseValue for Script<U> {
     }
 }
 
+thread_local! {
+    /// the call the most recent `record` saw, as a replayable `Call`
+    static LAST_CALL: RefCell<Call> = const { RefCell::new(Call::Nothing) };
+}
 struct Rec<'a>(&'a RefCell<Sx>);
 fn enc_obs(o: &Observation) -> Sx {
     match *o {
@@ -106,20 +113,26 @@ fn canon(f: f64) -> u64 {
 }
 impl ValueWriter for Rec<'_> {
     fn string(self, value: &str) {
+        LAST_CALL.with(|c| *c.borrow_mut() = Call::Str(value.to_string()));
         *self.0.borrow_mut() = sx::tag(1, vec![sx::b(value)]);
     }
     fn metric<'a>(self, distribution: impl IntoIterator<Item = Observation>, unit: Unit,
                   dimensions: impl IntoIterator<Item = (&'a str, &'a str)>, flags: MetricFlags<'_>) {
-        let obs: Vec<Sx> = distribution.into_iter().map(|o| enc_obs(&o)).collect();
-        let dims: Vec<Sx> = dimensions.into_iter().map(|(k, v)| Sx::L(vec![sx::b(k), sx::b(v)])).collect();
+        let raw: Vec<Observation> = distribution.into_iter().collect();
+        let rawdims: Vec<(String, String)> = dimensions.into_iter().map(|(k, v)| (k.to_string(), v.to_string())).collect();
+        LAST_CALL.with(|c| *c.borrow_mut() = Call::Metric { obs: raw.clone(), unit, dims: rawdims.clone(), flag: flags.downcast::<MyFlag>().map(|f| f.0) });
+        let obs: Vec<Sx> = raw.iter().map(enc_obs).collect();
+        let dims: Vec<Sx> = rawdims.iter().map(|(k, v)| Sx::L(vec![sx::b(k), sx::b(v)])).collect();
         let fl = flags.downcast::<MyFlag>().map(|f| sx::n(f.0));
         *self.0.borrow_mut() = sx::tag(3, vec![Sx::L(obs), sx::b(unit.name()), Sx::L(dims), sx::opt(fl)]);
     }
     fn error(self, error: ValidationError) {
+        LAST_CALL.with(|c| *c.borrow_mut() = Call::ErrRaw(error.clone()));
         *self.0.borrow_mut() = sx::tag(2, vec![sx::b(error.to_string())]);
     }
 }
 fn record(v: &impl Value) -> Sx {
+    LAST_CALL.with(|c| *c.borrow_mut() = Call::Nothing);
     let cell = RefCell::new(sx::tag(0, vec![]));
     v.write(Rec(&cell));
     cell.into_inner()
@@ -136,6 +149,8 @@ pub enum V {
     Dist(String, Vec<V>),
     Mean(String, f64, u64),
     Opt(String, Option<Box<V>>),
+    /// Mean::<U>::default() fed by one record_value(&v) per element
+    MeanSeq(String, Vec<V>),
 }
 
 const NSCALES: [NegativeScale; 3] = [NegativeScale::Micro, NegativeScale::Milli, NegativeScale::One];
@@ -178,6 +193,7 @@ fn enc_call(c: &Call) -> Sx {
         Call::Nothing => sx::tag(0, vec![]),
         Call::Str(v) => sx::tag(1, vec![sx::b(v)]),
         Call::Err(ms) => sx::tag(2, vec![Sx::L(ms.iter().map(sx::b).collect())]),
+        Call::ErrRaw(e) => sx::tag(2, vec![Sx::L(vec![sx::b(e.to_string())])]),
         Call::Metric { obs, unit, dims, flag } => sx::tag(3, vec![
             Sx::L(obs.iter().map(enc_obs_raw).collect()),
             enc_unit(unit),
@@ -225,6 +241,7 @@ pub fn enc_v(v: &V) -> Sx {
         V::Dist(e, vs) => sx::tag(5, vec![sx::b(e), Sx::L(vs.iter().map(enc_v).collect())]),
         V::Mean(u, t, n) => sx::tag(6, vec![sx::b(u), sx::n(t.to_bits()), sx::n(*n)]),
         V::Opt(e, o) => sx::tag(7, vec![sx::b(e), sx::opt(o.as_ref().map(|v| enc_v(v)))]),
+        V::MeanSeq(u, vs) => sx::tag(8, vec![sx::b(u), Sx::L(vs.iter().map(enc_v).collect())]),
     }
 }
 pub fn dec_v(x: &Sx) -> V {
@@ -236,6 +253,7 @@ pub fn dec_v(x: &Sx) -> V {
         4 => V::With(Box::new(dec_v(x.arg(0))), s(x.arg(1))),
         5 => V::Dist(s(x.arg(0)), x.arg(1).list().iter().map(dec_v).collect()),
         6 => V::Mean(s(x.arg(0)), f64::from_bits(x.arg(1).num() as u64), x.arg(2).num() as u64),
+        8 => V::MeanSeq(s(x.arg(0)), x.arg(1).list().iter().map(dec_v).collect()),
         _ => V::Opt(s(x.arg(0)), x.arg(1).list().first().map(|v| Box::new(dec_v(v)))),
     }
 }
@@ -252,6 +270,25 @@ pub enum Shape {
     Fo(Option<Call>),        // WithUnit<Option<Script<F>>, T>
     G(Call),                 // WithUnit<WithUnit<Script<F>, T>, F>
     H(Call),                 // WithUnit<WithUnit<WithUnit<Script<F>, T>, F>, T>
+    Dseq(Vec<Call>),         // WithUnit<Mean<F>, T>, the mean fed by record_value of each call: (results, final call)
+}
+
+/// Mean::<U>::default() fed by one `record_value` per call; the Ok / Err(message) results
+fn feed_mean<U: Tg>(calls: &[Call]) -> (Mean<U>, Sx) {
+    let mut m = Mean::<U>::default();
+    let mut rs = vec![];
+    for c in calls {
+        // record_value takes any Value, whatever unit it promises
+        rs.push(match m.record_value(&Script::<unit::None>::new(c.clone())) {
+            Ok(()) => Sx::L(vec![]),
+            Err(e) => Sx::L(vec![sx::b(e.to_string())]),
+        });
+    }
+    (m, Sx::L(rs))
+}
+fn run_bare_mean_seq<U: Tg>(calls: &[Call]) -> Sx {
+    let (m, rs) = feed_mean::<U>(calls);
+    Sx::L(vec![rs, record(&m)])
 }
 
 fn run_pair<F: Tg + Convert<T>, T: Tg>(sh: &Shape) -> Sx {
@@ -267,6 +304,10 @@ fn run_pair<F: Tg + Convert<T>, T: Tg>(sh: &Shape) -> Sx {
         }
         Shape::E(c) => record(&c.as_ref().map(|c| WithUnit::<Script<F>, T>::from(Script::new(c.clone())))),
         Shape::Fo(c) => record(&WithUnit::<Option<Script<F>>, T>::from(c.as_ref().map(|c| Script::new(c.clone())))),
+        Shape::Dseq(cs) => {
+            let (m, rs) = feed_mean::<F>(cs);
+            Sx::L(vec![rs, record(&WithUnit::<Mean<F>, T>::from(m))])
+        }
         _ => sx::tag(99, vec![]),
     }
 }
@@ -323,6 +364,7 @@ pub struct Tables {
     dur2_fn: BTreeMap<(&'static str, &'static str), fn(Duration) -> Sx>,
     bare_mean: BTreeMap<&'static str, fn(f64, u64) -> Sx>,
     bare_script: BTreeMap<&'static str, fn(&Call) -> Sx>,
+    bare_mean_seq: BTreeMap<&'static str, fn(&[Call]) -> Sx>,
 }
 
 fn run_dur<T: Tg>(d: &DurShape) -> Sx
@@ -357,7 +399,7 @@ fn run_bare_mean<U: Tg>(t: f64, n: u64) -> Sx {
 
 pub fn tables() -> Tables {
     let mut t = Tables { pairs: vec![], ratio: BTreeMap::new(), pair_fn: BTreeMap::new(), both_fn: BTreeMap::new(), prim_fn: BTreeMap::new(),
-                         dur_fn: BTreeMap::new(), dur2_fn: BTreeMap::new(), bare_mean: BTreeMap::new(), bare_script: BTreeMap::new() };
+                         dur_fn: BTreeMap::new(), dur2_fn: BTreeMap::new(), bare_mean: BTreeMap::new(), bare_script: BTreeMap::new(), bare_mean_seq: BTreeMap::new() };
     macro_rules! pair { ($a:ident, $b:ident) => {{
         let k = (<unit::$a as Tg>::IDENT, <unit::$b as Tg>::IDENT);
         t.pairs.push(k);
@@ -383,6 +425,7 @@ pub fn tables() -> Tables {
         t.prim_fn.insert(<unit::$b as Tg>::IDENT, run_prim::<unit::$b> as fn(&Prim) -> Sx);
         t.bare_mean.insert(<unit::$b as Tg>::IDENT, run_bare_mean::<unit::$b> as fn(f64, u64) -> Sx);
         t.bare_script.insert(<unit::$b as Tg>::IDENT, (|c: &Call| record(&Script::<unit::$b>::new(c.clone()))) as fn(&Call) -> Sx);
+        t.bare_mean_seq.insert(<unit::$b as Tg>::IDENT, run_bare_mean_seq::<unit::$b> as fn(&[Call]) -> Sx);
     }}; }
     with_all!(each, prim);
     macro_rules! dur { ($b:ident) => {{ t.dur_fn.insert(<unit::$b as Tg>::IDENT, run_dur::<unit::$b> as fn(&DurShape) -> Sx); }}; }
@@ -397,8 +440,30 @@ fn st(t: &Tables, name: &str) -> &'static str {
 }
 
 /// Execute a value tree on the real types; `None` when the tree is not one of the shapes the harness can type.
+/// A mean fed by record_value calls: each element is executed on its real type, the call it made is replayed into the
+/// real `Mean::<U>::record_value`, and the final mean is written bare or under `WithUnit<_, To>`: (results, call).
+pub fn exec_mean(t: &Tables, v: &V) -> Option<Sx> {
+    let (u, vs, to) = match v {
+        V::MeanSeq(u, vs) => (u, vs, Option::None),
+        V::With(i, to) => match &**i { V::MeanSeq(u, vs) => (u, vs, Some(to)), _ => return Option::None },
+        _ => return Option::None,
+    };
+    let mut calls = vec![];
+    for x in vs {
+        exec_tree(t, x)?;
+        calls.push(LAST_CALL.with(|c| c.borrow().clone()));
+    }
+    match to {
+        Option::None => Some(t.bare_mean_seq.get(u.as_str())?(&calls)),
+        Some(to) => Some(t.pair_fn.get(&(st(t, u), st(t, to)))?(&Shape::Dseq(calls))),
+    }
+}
+
 pub fn exec_tree(t: &Tables, v: &V) -> Option<Sx> {
     use V::*;
+    if matches!(v, MeanSeq(..)) || matches!(v, With(i, _) if matches!(**i, MeanSeq(..))) {
+        return exec_mean(t, v).and_then(|r| r.list().get(1).cloned());
+    }
     let all_scripts = |vs: &[V], f: &str| -> Option<Vec<Call>> {
         vs.iter().map(|x| match x { Script(u, c) if u == f => Some(c.clone()), _ => Option::None }).collect()
     };
@@ -450,6 +515,7 @@ pub fn exec_tree(t: &Tables, v: &V) -> Option<Sx> {
             Script(f, c) => t.pair_fn.get(&(st(t, f), st(t, to)))?(&Shape::A(c.clone())),
             Dist(f, vs) => t.pair_fn.get(&(st(t, f), st(t, to)))?(&Shape::C(all_scripts(vs, f)?)),
             Mean(f, tot, n) => t.pair_fn.get(&(st(t, f), st(t, to)))?(&Shape::D(*tot, *n)),
+            MeanSeq(..) => return Option::None, // handled above
             Opt(f, o) => {
                 let c = match o { Some(b) => match &**b { Script(u, c) if u == f => Some(c.clone()), _ => return Option::None }, Option::None => Option::None };
                 t.pair_fn.get(&(st(t, f), st(t, to)))?(&Shape::Fo(c))
@@ -483,6 +549,7 @@ pub fn exec_tree(t: &Tables, v: &V) -> Option<Sx> {
             let f = f.unwrap_or_else(|| "None".to_string());
             t.pair_fn.get(&(st(t, &f), st(t, to)))?(&Shape::B(cs))
         }
+        MeanSeq(..) => return Option::None, // handled above
         Opt(to, o) => match o {
             Option::None => t.pair_fn.get(&("None", st(t, to)))?(&Shape::E(Option::None)),
             Some(b) => match &**b {
@@ -689,6 +756,7 @@ fn classify(v: &V) -> &'static str {
         V::Dist(_, vs) if vs.iter().all(|x| matches!(x, V::With(..))) => "shape_distribution_of_with_unit",
         V::Dist(..) => "shape_bare_distribution",
         V::Opt(..) => "shape_option_of_with_unit",
+        V::MeanSeq(..) => "shape_mean_seq",
         V::With(i, _) => match &**i {
             V::Script(..) => "shape_with_unit_script",
             V::U(_) | V::F(_) => "shape_with_unit_number",
@@ -696,6 +764,7 @@ fn classify(v: &V) -> &'static str {
             V::Dist(..) => "shape_with_unit_distribution",
             V::Mean(..) => "shape_with_unit_mean",
             V::Opt(..) => "shape_with_unit_option",
+            V::MeanSeq(..) => "shape_with_unit_mean_seq",
             V::With(i2, _) => if matches!(**i2, V::With(..)) { "shape_with_unit_x3" } else { "shape_with_unit_x2" },
         },
     }
@@ -719,7 +788,7 @@ fn nontrivial(t: &Tables, v: &V, imp: &Sx) -> bool {
     }
     fn declared(v: &V) -> String {
         match v {
-            V::Script(u, _) | V::Mean(u, ..) | V::Dist(u, _) | V::Opt(u, _) => u.clone(),
+            V::Script(u, _) | V::Mean(u, ..) | V::Dist(u, _) | V::Opt(u, _) | V::MeanSeq(u, _) => u.clone(),
             V::With(_, t) => t.clone(),
             V::U(_) | V::F(_) => "None".into(),
             V::Dur(..) => "Millisecond".into(),
@@ -738,6 +807,7 @@ pub fn run(ctx: &Ctx) {
     let mut outp = Out::new(ctx, "-p");
     let mut outc = Out::new(ctx, "-c");
     let mut outv = Out::new(ctx, "-v");
+    let mut outm = Out::new(ctx, "-m");
 
     let do_pair = |out: &mut Out, f: &str, to: &str| {
         let case = sx::tag(0, vec![sx::b(f), sx::b(to)]);
@@ -766,6 +836,22 @@ pub fn run(ctx: &Ctx) {
             Option::None => out.fail("harness cannot type this value tree (not a violation of the property; fix the replay)".into(), &case),
         }
     };
+    let do_mean = |out: &mut Out, v: &V| {
+        let case = sx::tag(4, vec![enc_v(v)]);
+        match exec_mean(&t, v) {
+            Some(imp) => {
+                let rs = imp.list()[0].list();
+                let rejected = rs.iter().filter(|r| !r.list().is_empty()).count();
+                out.count(match (rs.len(), rejected) { (0, _) => "mean_empty", (n, r) if n == r => "mean_all_rejected", (_, 0) => "mean_none_rejected", _ => "mean_some_rejected" });
+                out.add("mean_records", rs.len() as u64);
+                out.add("mean_records_rejected", rejected as u64);
+                out.count(if matches!(v, V::With(..)) { "mean_written_with_unit" } else { "mean_written_bare" });
+                out.count(match imp.list()[1].tag() { 0 => "mean_result_nothing", 2 => "mean_result_error", _ => "mean_result_metric" });
+                out.case(&case, &imp, rejected > 0 && rejected < rs.len());
+            }
+            Option::None => out.fail("harness cannot type this mean sequence (not a violation of the property; fix the replay)".into(), &case),
+        }
+    };
     let do_attr = |out: &mut Out, fields: &[(String, V)]| {
         let case = sx::tag(3, vec![Sx::L(fields.iter().map(|(n, v)| Sx::L(vec![sx::b(n), enc_v(v)])).collect())]);
         match exec_attr(fields) {
@@ -781,6 +867,7 @@ pub fn run(ctx: &Ctx) {
                 0 => do_pair(&mut outp, &s(c.arg(0)), &s(c.arg(1))),
                 1 => do_census(&mut outc),
                 2 => do_tree(&mut outv, &dec_v(c.arg(0))),
+                4 => do_mean(&mut outm, &dec_v(c.arg(0))),
                 _ => {
                     let fields: Vec<(String, V)> = c.arg(0).list().iter().map(|f| (s(&f.list()[0]), dec_v(&f.list()[1]))).collect();
                     do_attr(&mut outv, &fields)
@@ -790,6 +877,7 @@ pub fn run(ctx: &Ctx) {
         outp.finish("replay");
         outc.finish("replay");
         outv.finish("replay");
+        outm.finish("replay");
         return;
     }
 
@@ -873,7 +961,128 @@ pub fn run(ctx: &Ctx) {
         do_attr(&mut outv, &fields);
     }
 
+    // ---- means fed by sequences of record_value calls: rejected values must not leave a trace
+    {
+        let moderate_f = |rng: &mut Rng| -> f64 {
+            match rng.below(14) {
+                0 => 0.0,
+                1 => -0.0,
+                2 => 1.0,
+                3 => 0.1,
+                4 => -(rng.below(1 << 20) as f64) / 7.0,
+                5 => (rng.below(1 << 30) as f64) / 1000.0,
+                6 => f64::from_bits(rng.below(1 << 52)),                 // subnormal
+                7 => 1e150 * (rng.below(1000) as f64),
+                8 => -1e150 * (rng.below(1000) as f64),
+                9 => if rng.chance(1, 4) { [f64::INFINITY, f64::NEG_INFINITY, f64::NAN][rng.below(3) as usize] } else { 42.0 },
+                10 => f64::from_bits(0x3ff0_0000_0000_0000 ^ (rng.next() & 0x801f_ffff_ffff_ffff)),
+                11 => ((1u64 << 53) + 1) as f64,
+                _ => rng.below(100) as f64,
+            }
+        };
+        let moderate_obs = |rng: &mut Rng| -> Observation {
+            match rng.below(3) {
+                0 => Observation::Unsigned(match rng.below(6) { 0 => 0, 1 => 1, 2 => (1 << 53) + 1, 3 => u64::MAX, 4 => rng.next() >> rng.below(64), _ => rng.below(1000) }),
+                1 => Observation::Floating(moderate_f(rng)),
+                _ => Observation::Repeated { total: moderate_f(rng), occurrences: match rng.below(5) { 0 => 0, 1 => 1, 2 => 1 << 40, _ => rng.below(1000) } },
+            }
+        };
+        let honest_call = |rng: &mut Rng, unit: &str| -> Call {
+            let n = match rng.below(6) { 0 => 0, 1..=3 => 1, _ => rng.range(2, 4) } as usize;
+            Call::Metric { obs: (0..n).map(|_| moderate_obs(rng)).collect(), unit: unit_by_ident(unit), dims: vec![], flag: if rng.chance(1, 6) { Some(3) } else { Option::None } }
+        };
+        let w = |v: V, to: &str| V::With(Box::new(v), to.to_string());
+        let sources_of = |u: &str| -> Vec<&'static str> { t.pairs.iter().filter(|p| p.1 == u).map(|p| p.0).collect() };
+        // an element the Mean<u> must accept
+        let accepted = |rng: &mut Rng, u: &'static str, out: &mut Out| -> V {
+            match rng.below(8) {
+                0 | 1 | 2 => { out.count("mean_elem_honest_script"); V::Script(u.to_string(), honest_call(rng, u)) }
+                3 => { // an honest value of another unit, converted into u
+                    let srcs = sources_of(u);
+                    if srcs.is_empty() { out.count("mean_elem_honest_script"); V::Script(u.to_string(), honest_call(rng, u)) }
+                    else { let f = srcs[rng.below(srcs.len() as u64) as usize]; out.count("mean_elem_converted"); w(V::Script(f.to_string(), honest_call(rng, f)), u) }
+                }
+                4 => if IDENTS_TIME.contains(&u) {
+                    out.count("mean_elem_duration_declared");
+                    let d = gen_duration(rng); let d = Duration::new(d.as_secs() % 4_000_000_000, d.subsec_nanos());
+                    if u == "Millisecond" && rng.chance(1, 2) { V::Dur(d.as_secs(), d.subsec_nanos()) } else { w(V::Dur(d.as_secs(), d.subsec_nanos()), u) }
+                } else if u == "None" { out.count("mean_elem_bare_number"); if rng.chance(1, 2) { V::U(rng.below(1 << 40)) } else { V::F(moderate_f(rng)) } }
+                else { out.count("mean_elem_declared_number"); w(if rng.chance(1, 2) { V::U(rng.below(1 << 40)) } else { V::F(moderate_f(rng)) }, u) },
+                5 => if rng.chance(1, 3) { out.count("mean_elem_option_none"); V::Opt(u.to_string(), Option::None) }
+                     else if t.pairs.contains(&(u, u)) { out.count("mean_elem_option_some"); w(V::Opt(u.to_string(), Some(Box::new(V::Script(u.to_string(), honest_call(rng, u))))), u) }
+                     else { out.count("mean_elem_honest_script"); V::Script(u.to_string(), honest_call(rng, u)) },
+                6 => { out.count("mean_elem_no_call"); V::Script(u.to_string(), Call::Nothing) }
+                _ => { out.count("mean_elem_mean"); V::Mean(u.to_string(), 0.0 + moderate_f(rng), rng.below(5)) }
+            }
+        };
+        // an element the Mean<u> must reject without a trace
+        let rejected = |rng: &mut Rng, u: &'static str, out: &mut Out| -> V {
+            loop {
+                let v = match rng.below(8) {
+                    0 => { // a raw Duration (Milliseconds) into a mean of another unit
+                        let d = gen_duration(rng); V::Dur(d.as_secs() % 4_000_000_000, d.subsec_nanos()) }
+                    1 => if rng.chance(1, 2) { V::U(rng.below(1 << 40).max(1)) } else { V::F(1.0 + moderate_f(rng).abs().min(1e100)) },  // unitless number
+                    2 => { // promises u, writes another unit
+                        let other = all[rng.below(all.len() as u64) as usize];
+                        let mut c = honest_call(rng, other);
+                        if let Call::Metric { obs, .. } = &mut c { if obs.is_empty() { obs.push(Observation::Unsigned(7)); } }
+                        V::Script(u.to_string(), c) }
+                    3 => { // an honest value of u converted to another unit
+                        let tos: Vec<&'static str> = t.pairs.iter().filter(|p| p.0 == u).map(|p| p.1).collect();
+                        if tos.is_empty() { continue; }
+                        let to = tos[rng.below(tos.len() as u64) as usize];
+                        w(V::Script(u.to_string(), honest_call(rng, u)), to) }
+                    4 => { // right unit, but with dimensions
+                        let mut c = honest_call(rng, u);
+                        if let Call::Metric { dims, .. } = &mut c { dims.push(("k0".into(), "v1".into())); }
+                        V::Script(u.to_string(), c) }
+                    5 => V::Script(u.to_string(), Call::Str("text".into())),
+                    6 => V::Script(u.to_string(), Call::Err(vec!["scripted error".into()])),
+                    _ => { // wrong unit and dimensions at once
+                        let other = all[rng.below(all.len() as u64) as usize];
+                        let mut c = honest_call(rng, other);
+                        if let Call::Metric { dims, obs, .. } = &mut c { dims.push(("k0".into(), "v0".into())); if obs.is_empty() { obs.push(Observation::Floating(2.5)); } }
+                        V::Script(u.to_string(), c) }
+                };
+                // keep it only if the mean's unit really differs from what the element writes
+                let writes = match &v {
+                    V::Dur(..) => Some("Millisecond"), V::U(_) | V::F(_) => Some("None"),
+                    V::Script(_, Call::Metric { unit, dims, .. }) if dims.is_empty() => all.iter().copied().find(|a| unit_by_ident(a) == *unit),
+                    V::With(_, to) => all.iter().copied().find(|a| *a == to.as_str()),
+                    _ => Option::None,
+                };
+                if writes.map_or(false, |x| unit_by_ident(x) == unit_by_ident(u)) { continue; }
+                out.count(match &v { V::Dur(..) => "mean_elem_rejected_raw_duration", V::U(_) | V::F(_) => "mean_elem_rejected_unitless_number",
+                    V::With(..) => "mean_elem_rejected_converted_elsewhere",
+                    V::Script(_, Call::Str(_)) => "mean_elem_rejected_string", V::Script(_, Call::Err(_)) => "mean_elem_rejected_error",
+                    V::Script(_, Call::Metric { dims, .. }) if !dims.is_empty() => "mean_elem_rejected_dimensions",
+                    _ => "mean_elem_rejected_wrong_unit" });
+                return v;
+            }
+        };
+        let nmean = if ctx.tier_thorough { 30_000 } else { 4_000 };
+        for i in 0..nmean {
+            let u = all[rng.below(all.len() as u64) as usize];
+            let n = match i % 20 { 0 => 0, _ => rng.range(1, 6) } as usize;
+            let nrej = match i % 20 { 1 => n, 2 => 0, _ => (rng.below(4) as usize).min(n) };
+            let mut kinds: Vec<bool> = (0..n).map(|j| j < nrej).collect();
+            for j in (1..kinds.len()).rev() { let k = rng.below(j as u64 + 1) as usize; kinds.swap(j, k); }
+            let vs: Vec<V> = kinds.iter().map(|rej| if *rej { rejected(&mut rng, u, &mut outm) } else { accepted(&mut rng, u, &mut outm) }).collect();
+            let tree = V::MeanSeq(u.to_string(), vs);
+            let tos: Vec<&'static str> = t.pairs.iter().filter(|p| p.0 == u).map(|p| p.1).collect();
+            let tree = if !tos.is_empty() && rng.chance(1, 2) { w(tree, tos[rng.below(tos.len() as u64) as usize]) } else { tree };
+            do_mean(&mut outm, &tree);
+        }
+        // the seeded scenario spelled out, for every time unit but Millisecond: a raw Duration into Mean<u>
+        for u in ["Second", "Microsecond"] {
+            let honest = V::Script(u.to_string(), Call::Metric { obs: vec![Observation::Floating(2.0)], unit: unit_by_ident(u), dims: vec![], flag: Option::None });
+            do_mean(&mut outm, &V::MeanSeq(u.to_string(), vec![honest.clone(), V::Dur(1, 500_000_000), honest.clone()]));
+            do_mean(&mut outm, &V::MeanSeq(u.to_string(), vec![V::Dur(1, 500_000_000)]));
+        }
+    }
+
     outp.finish("every ordered pair (From, To) for which `From: Convert<To>` exists (None -> 26 tags, 3x3 time, 20x20 bit/byte(/second)): RATIO bit pattern and both unit names. Non-trivial = RATIO != 1.0");
     outc.finish("the set of Convert pairs the harness instantiates vs. the convertible pairs of the tables regenerated from unit.rs");
     outv.finish("value trees over the real types: exhaustive (pair x observation kind x boundary magnitudes, wrong-unit and string per pair) plus random shapes (WithUnit of scripted values / Distribution inside and outside / Mean / Option inside and outside / round trips / primitives / Duration) and #[metrics(unit = ..)] entries. Non-trivial = a conversion with RATIO != 1 applied to at least one observation, or a validation error; distinct by hash of the case");
+    outm.finish("Mean<U> fed by sequences of 0-6 record_value calls (honest values of U incl. converted ones, Durations, Options, no-call values, nested means; rejected ones at any position: raw Durations / unitless numbers into a mean of another unit, wrong-unit scripts, values converted elsewhere, dimensions, strings, errors), all-rejected and empty sequences, the final mean written bare or under WithUnit. Non-trivial = at least one accepted and one rejected record; distinct by hash of the case");
 }
